@@ -6,14 +6,15 @@ From C16 Require Import ObjModel SelfContained.
 Import ListNotations.
 Local Open Scope string_scope.
 
-Definition ex_mul : method_desc := {| m_name := "mul@1"; m_const := true; m_reads := ["_p"; "_r2"]; m_effects := [] |}.
+Definition ex_mul : method_desc := {| m_name := "mul@1"; m_const := true; m_reads := ["_p"; "_r2"]; m_effects := []; m_mutator := false; m_writes := [] |}.
 Definition ex_desc (assign_all : bool) : class_desc := {|
   cd_name := "Ex"; cd_from_ast := false; cd_members := ["_p"; "_r2"]; cd_mutable := []; cd_shared := [];
   cd_copy := Some [("_p", SrcMember "_p"); ("_r2", SrcMember "_r2")];
   cd_assign := Some (("_p", SrcMember "_p") :: if assign_all then [("_r2", SrcMember "_r2")] else []);
-  cd_reads := ["_p"; "_r2"]; cd_copy_effects := []; cd_rc := None; cd_methods := [ex_mul] |}.
+  cd_reads := ["_p"; "_r2"]; cd_params := ["_p"; "_r2"]; cd_copy_effects := []; cd_rc := None; cd_methods := [ex_mul] |}.
 
-Definition ex_init (p : nat) : string -> nat := fun x => if String.eqb x "_p" then p else p * p.
+Definition ex_init (p : nat) : string -> nat :=
+  fun x => if String.eqb x "_p" then p else if String.eqb x "_r2" then p * p else 0.
 Definition ex_run (n : string) (s st : string -> nat) (a : unit) : nat := s "_p" + s "_r2".
 Definition ex_eff (n : string) (s st : string -> nat) (a : unit) : string -> nat := s.
 Definition ex_junk (o : nat) (x : string) (a b : string -> nat) : nat := 0.
@@ -34,11 +35,20 @@ Proof.
   destruct (String.eqb x "_r2"); discriminate.
 Qed.
 
+Lemma ex_params : forall b p p' x, mem x (cd_params (ex_desc b)) = false -> ex_init p x = ex_init p' x.
+Proof.
+  intros b p p' x H. unfold mem in H. cbn in H.
+  apply orb_false_iff in H. destruct H as [H1 H2]. apply orb_false_iff in H2. destruct H2 as [H2 _].
+  unfold ex_init. rewrite H1, H2. reflexivity.
+Qed.
+Lemma ex_mutators : forall b md, In md (cd_methods (ex_desc b)) -> m_mutator md = true -> mutator_ok_b (ex_desc b) md = true.
+Proof. intros b md [H|[]] Hm. subst md. discriminate. Qed.
+
 (* complete description: the generic theorem applies to this instance *)
 Definition Example_complete_stmt : Prop :=
   SelfContained_stmt nat nat unit nat (ex_desc true) ex_init (fun _ => 0) ex_junk ex_run ex_eff ex_eff.
 Lemma example_complete : Example_complete_stmt.
-Proof. apply self_contained; [apply ex_run_footprint|apply ex_own_footprint|apply ex_default]. Qed.
+Proof. apply self_contained; [apply ex_run_footprint|apply ex_own_footprint|apply ex_default|apply ex_mutators|apply ex_params]. Qed.
 
 (* operator= that forgets _r2: refuted *)
 Definition ex_step := step nat nat unit nat (ex_desc false) ex_init (fun _ => 0) ex_junk ex_run ex_eff ex_eff.
